@@ -606,7 +606,7 @@ def plan_c14(doc: dict, man: dict, args: dict) -> list:
                 acts.append({"a": "enum_info", "cls": ep["cls"], "x": {"case": key, "what": "members"}})
             for v in case["values"]:
                 acts.append({"a": "roundtrip", "cls": cls, "value": {pn: v}, "x": {"case": key, "what": "listed", "py": pi["python_name"]}})
-            for v in unlisted(case["values"]):
+            for v in unlisted(case["values"]) + [v_ for v_ in case.get("extra_unlisted") or [] if v_ not in unlisted(case["values"])]:
                 acts.append({"a": "roundtrip", "cls": cls, "value": {pn: v}, "x": {"case": key, "what": "unlisted"}})
             acts.append({"a": "roundtrip", "cls": cls, "value": {pn: None}, "x": {"case": key, "what": "null" if case.get("null") else "null_unlisted"}})
         else:
